@@ -22,6 +22,10 @@ class Unsupported(Exception):
     """the input is outside what this reference covers"""
 
 
+class ExpectFailure(Exception):
+    """SHACL prescribes a validation failure (no verdict) for this input"""
+
+
 # ───────────────────────────── SPARQL 1.1 operator semantics ──────────────────────────────
 def dt_of(l: Literal):
     if l.language:
@@ -257,7 +261,7 @@ class Ref:
             path = self.sg.value(s, SH.path)
         return {"focus": wire.tkey(f), "value": wire.tkey(value) if value is not None else "-", "path": wire.tkey(path) if path is not None else "-",
                 "component": wire.tkey(SH[comp + "ConstraintComponent"]), "shape": wire.tkey(s), "severity": wire.tkey(self.severity(s)),
-                "messages": self.messages(s), "detail": []}
+                "messages": self.messages(s), "detail": [], "source": "-"}
 
     def conforms(self, v, s, depth):
         return len(self.validate_node(s, v, depth + 1)) == 0
@@ -388,6 +392,10 @@ class Ref:
                     for p, o in dg.predicate_objects(v):
                         if p not in allowed:
                             add("Closed", o, path=p)
+        for c in sg.objects(s, SH.sparql):
+            if any(isinstance(d, Literal) and d.value is True for d in sg.objects(c, SH.deactivated)):
+                continue
+            R.extend(self.sparql_results(s, c, f))
         # shape-based and logical components: from conformance facts only
         for n in sg.objects(s, SH["not"]):
             for v in vs:
@@ -438,6 +446,21 @@ class Ref:
                         add("QualifiedMaxCount")
         self.cache[key] = R
         return R
+
+    def sparql_results(self, s, c, f):
+        import sparqlgen
+        t = (self.sparql_templates or {}).get(c)
+        if t is None:
+            raise Unsupported("sh:sparql constraint without a template descriptor")
+        # SHACL-SPARQL §5.3.1 / pre-binding rules: these queries are ill-formed -> failure
+        if t["minus"] or t["values"] or t["service"] or (t["nested"] is not None and "this" not in t["nested"]) or t["asVar"] in ("this", "currentShape", "shapesGraph"):
+            raise ExpectFailure(t["kind"])
+        if t["usesPath"] and not self.is_prop(s):
+            raise Unsupported("$PATH on a node shape")
+        rows = sparqlgen.run_query_directly(self.sg, self.dg, c, s, f)
+        return sparqlgen.expected_results(self.sg, self.dg, s, c, f, rows, self)
+
+    sparql_templates = None
 
     # top level --------------------------------------------------------------------------------
     def shapes(self):
